@@ -445,6 +445,45 @@ pub fn run(args: &[String]) -> i32 {
     let mix = get("--mix", "mixed");
     let mut r = Recorder::new(&out, seed);
     match mix.as_str() {
+        "deep" => {
+            // a very deep chain: ancestor relations over dozens of levels (limits hidden in ancestor walks)
+            r.reset(0);
+            let depth: usize = get("--depth", "0").parse().unwrap_or(0);
+            let depth = if depth > 0 { depth } else { 66 + (seed % 4) as usize * 3 };     // 66 .. 75 unless --depth is given
+            let root = r.call(&Call { op: "new".into(), a: 0, b: 0, v: 1, checked: false, r: vec![] }).new;
+            let mut chain = vec![root];
+            for i in 1..depth {
+                let d = r.call(&Call { op: "append_value".into(), a: *chain.last().unwrap(), b: 0, v: i as u32 + 1, checked: false, r: vec![] });
+                if d.new == 0 {
+                    break;
+                }
+                chain.push(d.new);
+            }
+            let ins = ["append", "prepend", "insert_after", "insert_before"];
+            let n = chain.len();
+            // impossible inserts at distances around typical limits, each entry point
+            for (k, dist) in [1usize, 2, 31, 32, 33, 63, 64, 65, n - 1].iter().enumerate() {
+                if *dist >= n {
+                    continue;
+                }
+                let a = chain[n - 1];
+                let b = chain[n - 1 - dist];
+                for (j, op) in ins.iter().enumerate() {
+                    r.call(&Call { op: (*op).into(), a, b, v: 0, checked: (k + j) % 3 != 0, r: vec![] });
+                }
+                r.observe(a);
+            }
+            // and some possible moves / removals inside the deep chain, then ordinary life
+            let mid = chain[n / 2];
+            r.call(&Call { op: "detach".into(), a: mid, b: 0, v: 0, checked: false, r: vec![] });
+            r.call(&Call { op: "append".into(), a: chain[n - 1], b: chain[1], v: 0, checked: true, r: vec![] });
+            r.call(&Call { op: "insert_before".into(), a: chain[2], b: mid, v: 0, checked: true, r: vec![] });
+            r.call(&Call { op: "remove".into(), a: chain[3], b: 0, v: 0, checked: false, r: vec![] });
+            r.call(&Call { op: "remove_subtree".into(), a: chain[n - 8], b: 0, v: 0, checked: false, r: vec![] });
+            if events > 0 {
+                r.drive("fail", events, n + 2);
+            }
+        }
         "churn200" => {
             // a few hundred recycles of one slot, then ordinary life (used to compare builds, C17)
             r.reset(0);
